@@ -173,6 +173,24 @@ func (g *Gen) upperFamilies() {
 
 func genC06(g *Gen) {
 	g.upperFamilies()
+	g.arrangedFrames("apply arranged", func(f int) {
+		in := func(k, sym, dst, s1, s2 string) Instr {
+			i := Instr{Fn: FnRef{K: k, Sym: sym}, Dst: toBS(dst), Src1: toBS(s1)}
+			if s2 != "" {
+				i.Src2 = toBS(s2)
+			}
+			return i
+		}
+		g.do(Step{Op: "Apply", Recv: f, Instrs: []Instr{in("fn1", "negI", "N1", "I", ""), in("fn1", "negF", "N2", "F", ""), in("fn1", "NotB", "N3", "B", ""),
+			in("fn1", "bangS", "N4", "S", ""), in("fn1", "bangS", "N5", "E", ""), in("fn1", "isNilS", "N6", "S", ""), in("fn1", "lenFS", "N7", "X", "")}})
+		g.do(Step{Op: "Apply", Recv: f, Instrs: []Instr{in("fn2", "MinusI", "I", "I", "P"), in("fn2", "MinusF", "F", "F", "F"), in("fn2", "implB", "B", "B", "B"),
+			in("fn2", "ConcatS", "S", "S", "S"), in("builtin", "ToUpper", "U", "S", ""), in("builtin", "ToUpper", "E", "E", "")}})
+		g.do(Step{Op: "Apply", Recv: f, Instrs: []Instr{{Fn: FnRef{K: "col", V: &Val{T: "col", S: toBS("S")}}, Dst: toBS("C")}, {Fn: FnRef{K: "const", V: &Val{T: "int", I: 7}}, Dst: toBS("K")}}})
+		cat := leafCatalogue()
+		cl := cat[g.rng.Intn(len(cat))]
+		g.do(Step{Op: "FilteredApply", Recv: f, Clause: &cl, Instrs: []Instr{in("fn1", "negI", "I", "I", ""), in("fn1", "bangS", "N4", "S", "")}})
+		g.do(Step{Op: "WithRowNums", Recv: f, Dst: toBS("rn")})
+	})
 	colsets := []string{"ABF", "FGT", "TUS", "SRE", "ABCFGTUSR", "EXA", "SB"}
 	sizes := []int{0, 1, 2, 3, 5, 8, 13, 30, 80}
 	for rep := 0; rep < g.pick(400, 4000); rep++ {
@@ -331,6 +349,19 @@ func (g *Gen) badExpr(s schema) Expr {
 var tempLike = []string{"const-temp-0", "colcol-temp-0", "unary-temp-0", "colcol-temp-1", "const-temp-1"}
 
 func genC07(g *Gen) {
+	g.arrangedFrames("eval arranged", func(f int) {
+		c := func(n string) Expr { return Expr{K: "col", Name: toBS(n)} }
+		call := func(op string, a ...Expr) *Expr { return &Expr{K: "call", Op: op, Args: a} }
+		k := Expr{K: "const", V: &Val{T: "int", I: 3}}
+		for _, e := range []struct {
+			dst string
+			e   *Expr
+		}{{"V", call("-", c("I"), c("P"))}, {"I", call("+", c("I"), k)}, {"V", call("abs", *call("neg", c("I")))}, {"V", call("*", c("F"), c("F"))},
+			{"V", call("!", c("B"))}, {"V", call("+", c("S"), c("S"))}, {"V", call("upper", c("E"))}, {"V", call("len", c("S"))}, {"V", call("isnil", c("S"))},
+			{"V", call("str", c("I"))}, {"V", call("float", c("I"))}, {"S", call("bang", c("X"))}} {
+			g.do(Step{Op: "Eval", Recv: f, Dst: toBS(e.dst), Expr: e.e, Ctx: userCtx})
+		}
+	})
 	colsets := []string{"ABF", "FGT", "TUS", "SRE", "ABCFGTUSR", "EXA", "AB", "S"}
 	sizes := []int{0, 1, 2, 3, 5, 8, 20}
 	types4 := []string{"int", "float", "bool", "string"}
